@@ -17,11 +17,29 @@
 //! which never fire within a case. `timer p` makes one fire for peer `p` by pushing a ready future
 //! into `NotificationProtocol::timers` (the timer future carries nothing but the peer id); a
 //! handshake timeout is indistinguishable from a read error on that substream (`rreset k`).
+//! `hstimeout p in|out` lets the `HandshakeService`'s own timer of that entry expire (hook
+//! `HandshakeService::verif_expire`).
+//!
+//! User commands: the adapter sits between the handle's command sender and the protocol's command
+//! receiver (`Config::command_rx` is swapped for a receiver the adapter feeds). It forwards every
+//! command unchanged and in order at the start of each `settle`, and notes the iteration order of
+//! the peer set of an `OpenSubstream` command (the protocol walks the same `HashSet`), printed as
+//! `order=…` by the operation that forwarded it. `cmdhold` stops the forwarding (the protocol loop
+//! does not get round to its command channel), `cmdfill` = `cmdhold` + fill the handle's channel
+//! through the handle's own API with empty `OpenSubstream` commands, `cmdrelease` resumes.
+//!
+//! `phold` / `prelease`: the protocol event loop is not polled for a while (its inputs pile up and are
+//! then handled in the order of its biased `select!`); connection tasks keep running.
+//!
+//! Connection command channel: `cfill p` fills the channel of the connection to `p` (the channel is
+//! shared with the other protocols of the connection), `cdrain p` lets the connection process it.
 
 use super::{
-    handle::NotificationHandle, types::NotificationEvent, Config, ConnectionState, Direction,
-    InboundState, NotificationError, NotificationProtocol, OutboundState, PeerState,
-    ValidationResult,
+    handle::{NotificationHandle, NotificationSink},
+    negotiation,
+    types::{NotificationCommand, NotificationEvent},
+    Config, ConnectionState, Direction, InboundState, NotificationError, NotificationProtocol,
+    OutboundState, PeerState, ValidationResult,
 };
 use crate::{
     codec::ProtocolCodec,
@@ -150,6 +168,30 @@ struct Conn {
 struct Inner {
     notif: NotificationProtocol,
     handle: NotificationHandle,
+    /// commands sent by the handle, not yet forwarded to the protocol
+    user_rx: Receiver<NotificationCommand>,
+    /// feeds `NotificationProtocol::command_rx`
+    fwd_tx: Sender<NotificationCommand>,
+    cmd_hold: bool,
+    /// the protocol event loop is not polled for the time being (`phold`)
+    proto_hold: bool,
+    /// connections established while the protocol loop is held: they cannot be closed before the
+    /// protocol has seen them (the adapter does not model a connection that is gone before its
+    /// `ConnectionEstablished` is handled)
+    held_conns: std::collections::HashSet<u64>,
+    /// while the protocol loop is held, the remote side of only ONE peer acts on its substreams: which
+    /// of several entries with news the handshake service reports first is decided by the iteration
+    /// order of its hash map, and an early error return for one peer changes what a same-peer pair
+    /// (one result, one error) of another peer yields
+    held_pipe_peer: Option<u64>,
+    /// iteration orders of the multi-peer `OpenSubstream` commands forwarded during this operation
+    orders: Vec<String>,
+    /// sink clones handed out by `notification_sink` (`None` = dropped)
+    sinks: Vec<Option<(NotificationSink, u64)>>,
+    /// peers whose connection task(s) are held back, and the sending modes used towards them since
+    held_peers: std::collections::HashSet<u64>,
+    pend_sync: std::collections::HashSet<u64>,
+    pend_async: std::collections::HashSet<u64>,
     _manager: TransportManager,
     manager_handle: crate::transport::manager::TransportManagerHandle,
     tx: Sender<InnerTransportEvent>,
@@ -220,7 +262,7 @@ impl Inner {
             Duration::from_secs(1_000_000),
             SubstreamKeepAlive::Yes,
         );
-        let (config, handle) = Config::new(
+        let (mut config, handle) = Config::new(
             ProtocolName::from(PROTOCOL),
             max_size,
             vec![1, 2, 3, 4],
@@ -230,12 +272,26 @@ impl Inner {
             asyn,
             dial,
         );
+        // (large: with the protocol loop held back, forwarded commands wait here)
+        let (fwd_tx, fwd_rx) = channel(1 << 22);
+        let user_rx = std::mem::replace(&mut config.command_rx, fwd_rx);
         let exec = Arc::new(Collect::default());
         let notif =
             NotificationProtocol::new(service, config, Arc::clone(&exec) as Arc<dyn Executor>);
         Self {
             notif,
             handle,
+            user_rx,
+            fwd_tx,
+            cmd_hold: false,
+            proto_hold: false,
+            held_conns: Default::default(),
+            held_pipe_peer: None,
+            orders: Vec::new(),
+            sinks: Vec::new(),
+            held_peers: Default::default(),
+            pend_sync: Default::default(),
+            pend_async: Default::default(),
             _manager: manager,
             manager_handle,
             tx,
@@ -254,12 +310,40 @@ impl Inner {
     /// Run the protocol loop and the connection tasks until nothing is runnable; returns the
     /// transport calls observed on the connection command channels.
     fn settle(&mut self) -> Vec<String> {
+        self.forward();
+        let mut calls = self.settle_inner();
+        calls.extend(self.orders.drain(..));
+        calls
+    }
+
+    /// Hand the commands the handle has sent to the protocol, unchanged and in order.
+    fn forward(&mut self) {
+        if self.cmd_hold {
+            return;
+        }
+        while let Ok(cmd) = self.user_rx.try_recv() {
+            if let NotificationCommand::OpenSubstream { peers } = &cmd {
+                if peers.len() > 1 {
+                    self.orders.push(format!(
+                        "order={}",
+                        peers.iter().map(pidx).collect::<Vec<_>>().join(",")
+                    ));
+                }
+            }
+            self.fwd_tx.try_send(cmd).expect("forward channel");
+        }
+    }
+
+    fn settle_inner(&mut self) -> Vec<String> {
         let mut rounds = 0;
         loop {
             rounds += 1;
             assert!(rounds < 100_000, "adapter: no quiescence");
             // protocol event loop: one event per `next_event()`
             loop {
+                if self.proto_hold {
+                    break;
+                }
                 self.proto_flag.take();
                 let open_before = self.open_peers();
                 let waker = Waker::from(Arc::clone(&self.proto_flag));
@@ -291,7 +375,7 @@ impl Inner {
                 }
             }
             let polled = poll_tasks(&self.exec, &mut self.tasks);
-            if !polled && !self.proto_flag.is_set() {
+            if !polled && (self.proto_hold || !self.proto_flag.is_set()) {
                 break;
             }
         }
@@ -299,23 +383,96 @@ impl Inner {
         let mut peers: Vec<u64> = self.conns.keys().copied().collect();
         peers.sort();
         for p in peers {
-            let conn = self.conns.get_mut(&p).unwrap();
-            if !conn.drain {
-                continue;
-            }
-            while let Ok(cmd) = conn.rx.try_recv() {
-                match cmd {
-                    ProtocolCommand::OpenSubstream { substream_id, .. } => {
-                        let s = sid(&substream_id);
-                        let n: usize = s[1..].parse().unwrap();
-                        self.requested.push((n, p, conn.generation, false));
-                        calls.push(format!("open({p},{s})"));
-                    }
-                    ProtocolCommand::ForceClose => calls.push(format!("fc({p})")),
-                }
+            if self.conns[&p].drain {
+                calls.extend(self.drain_conn(p));
             }
         }
         calls
+    }
+
+    /// The connection to `p` processes its command channel.
+    fn drain_conn(&mut self, p: u64) -> Vec<String> {
+        let mut calls = Vec::new();
+        let Some(conn) = self.conns.get_mut(&p) else { return calls };
+        while let Ok(cmd) = conn.rx.try_recv() {
+            match cmd {
+                ProtocolCommand::OpenSubstream { substream_id, .. } => {
+                    let s = sid(&substream_id);
+                    let n: usize = s[1..].parse().unwrap();
+                    self.requested.push((n, p, conn.generation, false));
+                    calls.push(format!("open({p},{s})"));
+                }
+                ProtocolCommand::ForceClose => calls.push(format!("fc({p})")),
+            }
+        }
+        calls
+    }
+
+    /// The user drops the handle (and every sink clone); `NotificationProtocol::run()` is polled until
+    /// it returns, then the connection tasks that are not held back are polled until nothing moves.
+    fn shutdown(self) -> String {
+        let Inner {
+            notif,
+            handle,
+            mut user_rx,
+            fwd_tx,
+            sinks,
+            _manager,
+            manager_handle,
+            tx,
+            exec,
+            mut tasks,
+            conns,
+            pipes,
+            ..
+        } = self;
+        drop(handle);
+        drop(sinks);
+        while let Ok(cmd) = user_rx.try_recv() {
+            fwd_tx.try_send(cmd).expect("forward channel");
+        }
+        drop(user_rx);
+        drop(fwd_tx);
+        let flag = Flag::new(true);
+        let waker = Waker::from(Arc::clone(&flag));
+        let mut run: Pin<Box<dyn Future<Output = ()>>> = Box::pin(notif.run());
+        let mut exited = false;
+        for _ in 0..10_000 {
+            if !flag.take() {
+                break;
+            }
+            if run.as_mut().poll(&mut Context::from_waker(&waker)).is_ready() {
+                exited = true;
+                break;
+            }
+        }
+        drop(run);
+        while poll_tasks(&exec, &mut tasks) {}
+        let res = format!(
+            "{} tasks={}",
+            if exited { "exited" } else { "running" },
+            tasks.len()
+        );
+        drop((tx, _manager, manager_handle, conns, pipes));
+        res
+    }
+
+    /// While the connection task of a peer is held back the user does not mix sending modes towards it
+    /// (which of two non-empty queues the task's `select!` serves first is not determined; that
+    /// interleaving is the subject of C12). `true` = the send is not performed.
+    fn mix_guard(&self, p: u64, is_async: bool) -> bool {
+        self.held_peers.contains(&p)
+            && if is_async { self.pend_sync.contains(&p) } else { self.pend_async.contains(&p) }
+    }
+
+    fn note_pending(&mut self, p: u64, is_async: bool) {
+        if self.held_peers.contains(&p) {
+            if is_async {
+                self.pend_async.insert(p);
+            } else {
+                self.pend_sync.insert(p);
+            }
+        }
     }
 
     fn open_peers(&self) -> Vec<u64> {
@@ -454,6 +611,14 @@ impl Inner {
     }
 }
 
+/// `1,2,3` (duplicates allowed), `-` = empty.
+fn parse_list(s: &str) -> Option<Vec<u64>> {
+    if s == "-" {
+        return Some(Vec::new());
+    }
+    s.split(',').map(|x| x.parse::<u64>().ok()).collect()
+}
+
 fn with_calls(res: &str, calls: Vec<String>) -> String {
     if calls.is_empty() {
         res.to_string()
@@ -494,6 +659,12 @@ impl NotifBox {
             ));
             return "ok".into();
         }
+        if let ["shutdown"] = t.as_slice() {
+            return match self.inner.take() {
+                Some(inner) => inner.shutdown(),
+                None => "bad-op".into(),
+            };
+        }
         let Some(inner) = self.inner.as_mut() else {
             return "bad-op".into();
         };
@@ -518,6 +689,9 @@ impl NotifBox {
                 let cap = kv.get("cap").and_then(|v| v.parse().ok()).unwrap_or(64usize);
                 let drain = kv.get("drain").map(|v| *v != "0").unwrap_or(true);
                 let (ctx, crx) = channel(cap.max(1));
+                if inner.proto_hold {
+                    inner.held_conns.insert(p);
+                }
                 inner.generation += 1;
                 let id = ConnectionId::from(inner.generation);
                 inner.conns.insert(
@@ -542,6 +716,9 @@ impl NotifBox {
             ["disc", p] => {
                 let Some(p) = num(p) else { return "bad-op".into() };
                 let p = p as u64;
+                if inner.proto_hold && inner.held_conns.contains(&p) {
+                    return "ignored".into();
+                }
                 let Some(conn) = inner.conns.remove(&p) else {
                     return "ignored".into();
                 };
@@ -648,6 +825,12 @@ impl NotifBox {
                 else {
                     return "ignored".into();
                 };
+                if inner.proto_hold && matches!(*op, "hs" | "rclose" | "rreset" | "rsend") {
+                    match inner.held_pipe_peer {
+                        Some(q) if q != p as u64 => return "ignored".into(),
+                        _ => inner.held_pipe_peer = Some(p as u64),
+                    }
+                }
                 let ctl = inner.pipes[k].0.clone();
                 let mut res = "ok".to_string();
                 match *op {
@@ -685,6 +868,9 @@ impl NotifBox {
                     t.held = true;
                     n += 1;
                 }
+                if n > 0 {
+                    inner.held_peers.insert(p as u64);
+                }
                 format!("ok held={n}")
             }
             ["unhold", p] => {
@@ -692,6 +878,9 @@ impl NotifBox {
                 for t in inner.tasks.iter_mut().filter(|t| t.peer == Some(p as u64)) {
                     t.held = false;
                 }
+                inner.held_peers.remove(&(p as u64));
+                inner.pend_sync.remove(&(p as u64));
+                inner.pend_async.remove(&(p as u64));
                 let calls = inner.settle();
                 with_calls("ok", calls)
             }
@@ -746,12 +935,232 @@ impl NotifBox {
             }
             ["send", p, payload] => {
                 let Some(p) = num(p) else { return "bad-op".into() };
+                let known = inner.handle.notification_sink(peer(p as u64)).is_some();
+                if known && inner.mix_guard(p as u64, false) {
+                    return "ignored".into();
+                }
                 let res = match inner.handle.send_sync_notification(peer(p as u64), unhex(payload)) {
-                    Ok(()) => "ok".to_string(),
+                    Ok(()) => {
+                        if known {
+                            inner.note_pending(p as u64, false);
+                        }
+                        "ok".to_string()
+                    }
                     Err(e) => err_word(&e).to_string(),
                 };
                 let calls = inner.settle();
                 with_calls(&res, calls)
+            }
+            ["cfill", p] => {
+                let Some(p) = num(p) else { return "bad-op".into() };
+                let Some(conn) = inner.conns.get_mut(&(p as u64)) else {
+                    return "ignored".into();
+                };
+                if conn.drain {
+                    return "ignored".into();
+                }
+                let mut n = 0;
+                while conn._tx.try_send(ProtocolCommand::ForceClose).is_ok() {
+                    n += 1;
+                }
+                let calls = inner.settle();
+                with_calls(&format!("ok filled={n}"), calls)
+            }
+            ["cdrain", p] => {
+                let Some(p) = num(p) else { return "bad-op".into() };
+                if !inner.conns.contains_key(&(p as u64)) {
+                    return "ignored".into();
+                }
+                let mut calls = inner.drain_conn(p as u64);
+                calls.extend(inner.settle());
+                with_calls("ok", calls)
+            }
+            ["phold"] => {
+                inner.proto_hold = true;
+                "ok".into()
+            }
+            ["prelease"] => {
+                inner.proto_hold = false;
+                inner.held_conns.clear();
+                inner.held_pipe_peer = None;
+                inner.proto_flag.0.store(true, Ordering::SeqCst);
+                let calls = inner.settle();
+                with_calls("ok", calls)
+            }
+            ["cmdhold"] => {
+                inner.cmd_hold = true;
+                "ok".into()
+            }
+            ["cmdfill"] => {
+                inner.cmd_hold = true;
+                let mut n = 0usize;
+                while n < 4 * crate::DEFAULT_CHANNEL_SIZE
+                    && inner.handle.try_open_substream_batch(std::iter::empty()).is_ok()
+                {
+                    n += 1;
+                }
+                format!("ok filled={n}")
+            }
+            ["cmdrelease"] => {
+                inner.cmd_hold = false;
+                let calls = inner.settle();
+                with_calls("ok", calls)
+            }
+            [op @ ("openb" | "tryopenb" | "closeb" | "tryclosb"), list] => {
+                let Some(ps) = parse_list(list) else { return "bad-op".into() };
+                let it = ps.iter().map(|p| peer(*p));
+                let show = |set: std::collections::HashSet<crate::PeerId>| {
+                    let mut v: Vec<u64> = set.iter().filter_map(peer_index).collect();
+                    v.sort();
+                    if v.is_empty() {
+                        "-".to_string()
+                    } else {
+                        v.iter().map(|x| x.to_string()).collect::<Vec<_>>().join(",")
+                    }
+                };
+                let waker = Waker::from(Flag::new(false));
+                let res = match *op {
+                    "openb" => {
+                        let fut = inner.handle.open_substream_batch(it);
+                        futures::pin_mut!(fut);
+                        match fut.poll(&mut Context::from_waker(&waker)) {
+                            Poll::Ready(Ok(())) => "ok".to_string(),
+                            Poll::Ready(Err(set)) => format!("ok ignored={}", show(set)),
+                            Poll::Pending => "blocked".into(),
+                        }
+                    }
+                    "tryopenb" => match inner.handle.try_open_substream_batch(it) {
+                        Ok(()) => "ok".to_string(),
+                        Err(set) => format!("full={}", show(set)),
+                    },
+                    "closeb" => {
+                        let fut = inner.handle.close_substream_batch(it);
+                        futures::pin_mut!(fut);
+                        match fut.poll(&mut Context::from_waker(&waker)) {
+                            Poll::Ready(()) => "ok".to_string(),
+                            Poll::Pending => "blocked".into(),
+                        }
+                    }
+                    _ => match inner.handle.try_close_substream_batch(it) {
+                        Ok(()) => "ok".to_string(),
+                        Err(set) if set.is_empty() => "none".into(),
+                        Err(set) => format!("full={}", show(set)),
+                    },
+                };
+                let calls = inner.settle();
+                with_calls(&res, calls)
+            }
+            ["seths", payload] => {
+                inner.handle.set_handshake(if *payload == "-" { Vec::new() } else { unhex(payload) });
+                "ok".into()
+            }
+            ["hstimeout", p, role] => {
+                let Some(p) = num(p) else { return "bad-op".into() };
+                let dir = match *role {
+                    "in" => negotiation::Direction::Inbound,
+                    "out" => negotiation::Direction::Outbound,
+                    _ => return "bad-op".into(),
+                };
+                let pid = peer(p as u64);
+                if inner.notif.negotiation.verif_timer(&pid, dir).is_none() {
+                    return "ignored".into();
+                }
+                if inner.proto_hold {
+                    match inner.held_pipe_peer {
+                        Some(q) if q != p as u64 => return "ignored".into(),
+                        _ => inner.held_pipe_peer = Some(p as u64),
+                    }
+                }
+                if let Some(timer) = inner.notif.negotiation.verif_timer(&pid, dir) {
+                    *timer = futures_timer::Delay::new(Duration::ZERO);
+                }
+                // the timer is fired by futures_timer's helper thread: wait for it (real time, bounded)
+                let mut calls = Vec::new();
+                for _ in 0..400 {
+                    inner.proto_flag.0.store(true, Ordering::SeqCst);
+                    calls.extend(inner.settle());
+                    if inner.notif.negotiation.verif_timer(&pid, dir).is_none() {
+                        break;
+                    }
+                    std::thread::sleep(Duration::from_millis(1));
+                }
+                with_calls("ok", calls)
+            }
+            ["asend", p, payload] => {
+                let Some(p) = num(p) else { return "bad-op".into() };
+                let known = inner.handle.notification_sink(peer(p as u64)).is_some();
+                if known && inner.mix_guard(p as u64, true) {
+                    return "ignored".into();
+                }
+                let res = {
+                    let fut = inner.handle.send_async_notification(peer(p as u64), unhex(payload));
+                    futures::pin_mut!(fut);
+                    let waker = Waker::from(Flag::new(false));
+                    match fut.poll(&mut Context::from_waker(&waker)) {
+                        Poll::Ready(Ok(())) => "ok",
+                        Poll::Ready(Err(_)) => "nopeer",
+                        Poll::Pending => "blocked",
+                    }
+                };
+                if res == "ok" {
+                    inner.note_pending(p as u64, true);
+                }
+                let calls = inner.settle();
+                with_calls(res, calls)
+            }
+            ["sink", p] => {
+                let Some(p) = num(p) else { return "bad-op".into() };
+                match inner.handle.notification_sink(peer(p as u64)) {
+                    Some(sink) => {
+                        inner.sinks.push(Some((sink, p as u64)));
+                        format!("ok sink={}", inner.sinks.len() - 1)
+                    }
+                    None => {
+                        // every `sink` operation takes a number, so that a case can refer to "its" sink
+                        inner.sinks.push(None);
+                        format!("none sink={}", inner.sinks.len() - 1)
+                    }
+                }
+            }
+            [op @ ("ssend" | "sasend"), k, payload] => {
+                let Some(k) = num(k) else { return "bad-op".into() };
+                let Some(Some((sink, sp))) = inner.sinks.get(k) else {
+                    return "ignored".into();
+                };
+                let sp = *sp;
+                if inner.mix_guard(sp, *op == "sasend") {
+                    return "ignored".into();
+                }
+                let res = if *op == "ssend" {
+                    match sink.send_sync_notification(unhex(payload)) {
+                        Ok(()) => "ok",
+                        Err(NotificationError::ChannelClogged) => "clogged",
+                        Err(_) => "noconn",
+                    }
+                } else {
+                    let fut = sink.send_async_notification(unhex(payload));
+                    futures::pin_mut!(fut);
+                    let waker = Waker::from(Flag::new(false));
+                    match fut.poll(&mut Context::from_waker(&waker)) {
+                        Poll::Ready(Ok(())) => "ok",
+                        Poll::Ready(Err(_)) => "noconn",
+                        Poll::Pending => "blocked",
+                    }
+                };
+                if res == "ok" {
+                    inner.note_pending(sp, *op == "sasend");
+                }
+                let calls = inner.settle();
+                with_calls(res, calls)
+            }
+            ["sdrop", k] => {
+                let Some(k) = num(k) else { return "bad-op".into() };
+                match inner.sinks.get_mut(k) {
+                    Some(slot @ Some(_)) => *slot = None,
+                    _ => return "ignored".into(),
+                }
+                let calls = inner.settle();
+                with_calls("ok", calls)
             }
             ["events"] => {
                 let mut all = Vec::new();
